@@ -7,6 +7,7 @@ struct Case {
   int entry = 0;  // 0 mtbl_compress, 1 mtbl_compress_level
   int level = 0;
   std::vector<BStr> segs;  // buffer = concatenation
+  std::vector<std::pair<int, int>> before;  // (algo, level): round trips of a fixed 2000-byte buffer made earlier in the same process
   std::string name;        // when non-empty: a name check instead ("name <string>")
   bytes fuzz;              // when non-empty: a libFuzzer input, decoded by decode_fuzz15()
   bool valid() const {
@@ -28,6 +29,7 @@ struct Case {
     }
     if (!name.empty()) o << "name " << hex(name) << "\n";
     else {
+      for (auto &b : before) o << "before algo=" << b.first << " level=" << b.second << "\n";
       o << "call algo=" << algo << " entry=" << entry << " level=" << level << "\n";
       for (auto &s : segs) o << "seg " << s.ser() << "\n";
     }
@@ -36,7 +38,14 @@ struct Case {
   static Case parse(const std::string &t) {
     Case c;
     for (auto &row : Lines::parse(t).rows) {
-      if (row[0] == "call") {
+      if (row[0] == "before") {
+        int a = 2, l = 0;
+        for (size_t i = 1; i < row.size(); i++) {
+          if (row[i].rfind("algo=", 0) == 0) a = atoi(row[i].c_str() + 5);
+          else if (row[i].rfind("level=", 0) == 0) l = atoi(row[i].c_str() + 6);
+        }
+        if (c.before.size() < 4) c.before.emplace_back(a, l);
+      } else if (row[0] == "call") {
         for (size_t i = 1; i < row.size(); i++) {
           size_t e = row[i].find('=');
           if (e == std::string::npos) continue;
@@ -90,6 +99,15 @@ static Case gen_case() {
   if (c.algo == 6) c.algo = one_of<int>({6, 7, 9, -1});
   c.entry = chance(60);
   c.level = gen_level15();
+  if (chance(35)) {
+    int nb = pick(1, 2);
+    for (int i = 0; i < nb; i++) {
+      int a = chance(70) && c.algo >= 1 && c.algo <= 5 ? c.algo : pick(1, 5);
+      int l = gen_level15();
+      if ((a == 4 || a == 5) && l > 12) l = 12;  // keep the earlier calls cheap
+      c.before.emplace_back(a, l);
+    }
+  }
   bool slow = c.entry == 1 && (c.level > 12 || c.level < -1000) && (c.algo == 4 || c.algo == 5);
   int nseg = weighted({10, 45, 25, 20});
   for (int i = 0; i < nseg; i++) {
@@ -155,7 +173,21 @@ static void body(const Case &c, Result &r) {
   }
   bytes in = c.buffer();
   std::string err;
-  if (!roundtrip(c.algo, c.entry, c.level, in, err)) r.failf("%s", err.c_str());
+  // "every algorithm, every level and every input buffer" holds for every call, whatever the process compressed before:
+  // earlier round trips at other levels / with other algorithms come first (each of them is judged too)
+  if (!c.before.empty()) {
+    bytes warm;
+    for (int i = 0; i < 2000; i++) warm.push_back((char)(i % 7 == 0 ? i * 31 : 'a' + i % 3));
+    for (auto &b : c.before) {
+      if (b.first < 1 || b.first > 5) continue;
+      if (!roundtrip(b.first, 1, b.second, warm, err)) {
+        r.failf("earlier call in the same process (algorithm %s, level %d, 2000-byte buffer): %s", NAMES[b.first], b.second, err.c_str());
+        return;
+      }
+    }
+    r.tag("other_calls_earlier_in_the_process");
+  }
+  if (!roundtrip(c.algo, c.entry, c.level, in, err)) r.failf("%s%s", c.before.empty() ? "" : "after earlier calls in the same process: ", err.c_str());
   r.nontrivial = c.algo >= 1 && c.algo <= 5;
   if (c.algo >= 1 && c.algo <= 5) r.tag(std::string("algo_") + NAMES[c.algo]);
   else r.tag("not_an_algorithm");
